@@ -58,7 +58,7 @@ func (p *Prog) IsPure(f *ssa.Function) bool {
 		for _, in := range b.Instrs {
 			switch in := in.(type) {
 			case *ssa.Store:
-				if _, ok := in.Addr.(*ssa.Alloc); !ok {
+				if !addrOfLocalAlloc(in.Addr) {
 					res = -1
 				}
 			case *ssa.MapUpdate, *ssa.Send, *ssa.Go, *ssa.Defer, *ssa.Panic:
@@ -346,4 +346,21 @@ func refs(v ssa.Value) []ssa.Instruction {
 		out = append(out, in)
 	}
 	return out
+}
+
+// addrOfLocalAlloc: the address points into an object allocated in this function (varargs arrays, composite literals).
+func addrOfLocalAlloc(a ssa.Value) bool {
+	for i := 0; i < 6; i++ {
+		switch x := a.(type) {
+		case *ssa.Alloc:
+			return true
+		case *ssa.IndexAddr:
+			a = x.X
+		case *ssa.FieldAddr:
+			a = x.X
+		default:
+			return false
+		}
+	}
+	return false
 }
